@@ -538,6 +538,56 @@ def run(ctx):
     ctx.ob('C16.R3', 'iterative:symmetric-threshold', ok,
            'iterative determinants are kept by a threshold on |value| (both partners alike)',
            imod, flt[0] if flt else iad)
+    # ---------------------------------------------------------- R6 value writers
+    # The bounds above are bounds on the value expression of every
+    # Determinant(<group>, <value>) construction.  They bound the stored value
+    # only if nothing accumulates into a determinant afterwards.
+    det_cls = prog.mod('determinant').cls('Determinant')
+    acc_methods = set()
+    for item in det_cls.body:
+        if isinstance(item, ast.FunctionDef) and item.name != '__init__':
+            for st in walk_no_nested(item):
+                if isinstance(st, (ast.AugAssign, ast.Assign)):
+                    tgts = [st.target] if isinstance(st, ast.AugAssign) else st.targets
+                    if any(norm(t) == 'self.value' for t in tgts):
+                        acc_methods.add(item.name)
+    writers = {}
+    acc_calls = []
+    for m2, q2, f2 in prog.all_funcs():
+        if m2.name == 'determinant':
+            continue
+        for st in walk_no_nested(f2):
+            if isinstance(st, (ast.AugAssign, ast.Assign)):
+                tgts = [st.target] if isinstance(st, ast.AugAssign) else st.targets
+                for t in tgts:
+                    if isinstance(t, ast.Attribute) and t.attr == 'value':
+                        kind = 'assign' if isinstance(st, ast.Assign) else \
+                            'scale' if isinstance(st.op, (ast.Div, ast.Mult)) else 'accumulate'
+                        writers.setdefault('%s.%s' % (m2.name, q2), []).append((kind, st))
+        sees_determinants = 'Determinant' in m2.src or '.determinants' in m2.src
+        if sees_determinants:
+            for c in calls_in(f2, nested=False):
+                if last_attr(c) in acc_methods and len(c.args) == 1:
+                    acc_calls.append((m2, q2, c))
+    allowed = {'group.Group.add_determinant': {'accumulate'},     # averaging (C08)
+               'group.Group.set_determinant': {'assign'},         # sharing the maximum in a coupled system
+               'group.Group.__truediv__': {'scale'}}              # averaging (C08)
+    bad_w = [(k, kind, st) for k, lst in writers.items() for kind, st in lst
+             if kind not in allowed.get(k, set())]
+    ctx.ob('C16.R6', 'determinant-value:writers', not bad_w,
+           'a determinant value is written after construction only by the averaging operators and '
+           'the coupled-system sharing (writers: %s)' % {k: sorted({x[0] for x in v}) for k, v in writers.items()},
+           bad_w[0][2]._parent and prog.mod(bad_w[0][0].split('.')[0]) if bad_w else dmod,
+           bad_w[0][2] if bad_w else dmod.tree)
+    ctx.ob('C16.R6', 'determinant-value:no-accumulation-call', not acc_calls,
+           'no code that handles determinants calls an accumulating method of Determinant (%s); '
+           'found %s' % (sorted(acc_methods), ['%s.%s: %s' % (m.name, q, norm(c)) for m, q, c in acc_calls]),
+           acc_calls[0][0] if acc_calls else dmod, acc_calls[0][2] if acc_calls else dmod.tree)
+    callers_add = sorted({'%s.%s' % (m2.name, q2) for m2, q2, f2 in prog.all_funcs()
+                          for c in calls_in(f2, nested=False) if last_attr(c) == 'add_determinant'})
+    ctx.ob('C16.R6', 'add_determinant:only-averaging', callers_add == ['group.Group.__iadd__'],
+           'Group.add_determinant (which sums values) is called only by the conformation-averaging '
+           'operator (callers: %s)' % callers_add, prog.mod('group'), prog.mod('group').tree)
     ctx.note('unresolved_calls_in_kernels', sorted(K.unknown_calls)[:40])
     ctx.assume('f_angle is taken as a cosine through the unit-vector idiom (the normalisation by '
                'the vectors\' own lengths is checked structurally)')
